@@ -89,15 +89,27 @@ def _b_live(first, transient=False, auto=False):
     return build
 
 
-def _b_progress(s):
+def _b_progress(s, auto=False):
     from rich.progress import Progress
     f = sched.RecFile()
     c = _console(f)
-    p = Progress("{task.description} {task.completed}", console=c, auto_refresh=False, redirect_stdout=False,
+    p = Progress("{task.description} {task.completed}", console=c, auto_refresh=auto, redirect_stdout=False,
                  redirect_stderr=False, get_time=lambda: 0.0)
     t1 = p.add_task("t1", total=10)
     p.start()
     return {"f": f, "c": c, "p": p, "t1": t1, "got": {}}
+
+
+def _b_progress_auto(s):
+    return _b_progress(s, auto=True)
+
+
+def _b_live_not_started(s):
+    from rich.live import Live
+    f = sched.RecFile()
+    c = _console(f)
+    live = Live("F1", console=c, auto_refresh=False, redirect_stdout=False, redirect_stderr=False)
+    return {"f": f, "c": c, "live": live, "got": {}}
 
 
 def _capture_two(env):
@@ -127,6 +139,8 @@ OPS = {
     "upd_same": lambda e: e["live"].update("G1", refresh=True),
     "upd_tall": lambda e: e["live"].update("G1\nG2\nG3", refresh=True),
     "stop": lambda e: e["live"].stop(),
+    "pstop": lambda e: e["p"].stop(),
+    "start_refresh": lambda e: (e["live"].start(), e["live"].refresh()),
     "start": lambda e: e["live"].start(),
     "refresh": lambda e: e["live"].refresh(),
     "adv_refresh": _adv,
@@ -154,6 +168,10 @@ HARNESSES = {
     "H11": (_b_live("F1\nF2\nF3"), {"A": ["refresh"], "B": ["upd_same"]}, "live", 0),
     "H12": (_b_live("F1"), {"A": ["refresh"], "B": ["upd_tall"]}, "live", 0),
     "H13": (_b_live("F1\nF2\nF3"), {"A": ["upd_tall"], "B": ["upd_same"]}, "live", 0),
+    # Progress with its refresh thread: print, then stop (joins the thread)
+    "H14": (_b_progress_auto, {"A": ["printP", "pstop"]}, "live", 2),
+    # two threads start the same, not yet started display
+    "H15": (_b_live_not_started, {"A": ["start_refresh"], "B": ["start_refresh"]}, "live", 0),
 }
 
 
@@ -278,7 +296,7 @@ def _judge(hid, s, obs):
     # (2) every write of the run is one that some sequential run also produces for that thread's call
     #     (a call's output is never split over several writes)
     n_writes = len([1 for w, _ in writes if w is not None])
-    if n_writes not in {len([1 for w, _ in so["writes"] if w is not None]) for so in seq} and hid != "H6":
+    if n_writes not in {len([1 for w, _ in so["writes"] if w is not None]) for so in seq} and tb == 0:      # a refresh thread whose timed wait fires adds writes of its own
         v.append(("%s/write-count-differs-from-any-sequential-run" % hid,
                   "%d writes %r; sequential runs have %r" % (n_writes, writes, sorted({len([1 for w, _ in so["writes"] if w is not None]) for so in seq}))))
     # (3) capture isolation
@@ -404,7 +422,7 @@ def describe(tier, seed, res):
     return {
         "rule": "per harness (H1 print||print+record, H2 print||capture, H3 log||print||export, H4/H5g/H5s live print||update "
                 "same/taller/shorter, H6 live auto-refresh thread, H7/H7x progress advance+refresh||print(||add_task), H8a/H8b "
-                "print||stop(/start/refresh), H9 live print||print, H10 transient print||stop, H11/H12 refresh||update shorter/taller, H13 update||update) every schedule with <= bound preemptions at the stated granularity "
+                "print||stop(/start/refresh), H9 live print||print, H10 transient print||stop, H11/H12 refresh||update shorter/taller, H13 update||update, H14 progress auto-refresh thread print;stop, H15 start||start) every schedule with <= bound preemptions at the stated granularity "
                 "(coarse = lock/event/thread/write operations; shared = + every line of the whitelisted modules except "
                 "per-call-only console functions, bytecodes in the locked read-modify-write functions; line = every line). "
                 "An execution is one complete schedule; non-trivial = at least two threads wrote to the file or a violation; "
